@@ -591,6 +591,80 @@ def r05_4(ctx):
         ctx.ob(f"{fmt}-before-toml", ok, where, f"{fmt} trial precedes the TOML trial (trial order: {ts.order})" if ok else f"the TOML trial (buffers up to its cap) can run before the streaming {fmt} trial (trial order: {ts.order})")
 
 
+def _pulls_bytes(lib, memo_, fid, depth=0):
+    """The same-crate function `fid` can read from an io::Read source (directly or through helpers)."""
+    if fid in memo_:
+        return memo_[fid]
+    memo_[fid] = False
+    b = lib.by_id.get(fid)
+    if b is None or depth > 5:
+        return False
+    for _, t in b.calls():
+        f = fn_of(t) or {}
+        if f.get("trait") in ("std::io::Read", "std::io::BufRead") and f.get("name") not in ("by_ref", "take", "chain", "bytes", "consume") or f.get("def") in ("std::io::copy", "std::io::read_to_string"):
+            memo_[fid] = True
+            return True
+        callee = f.get("resolved") or f.get("def")
+        if f.get("local") and callee in lib.by_id and _pulls_bytes(lib, memo_, callee, depth + 1):
+            memo_[fid] = True
+            return True
+    return False
+
+
+@rule("R05.6", 2, "the detection driver reads nothing by itself: every call that can pull bytes from the input during detection sits inside one of the trials (so the first trial's own look-ahead is the first read)", ["C05"])
+def r05_6(ctx):
+    lib = ctx.lib
+    ts = common.trial_sequence(ctx.facts)
+    det = ts.driver
+    trials = {b.id for b in common.trial_functions(ctx.facts).values()}
+    sup = Super(lib, det, depth=4)
+    memo_ = {}
+    n = 0
+    bad = []
+    for nn, bx, t in sup.calls():
+        if any(cs[2] in trials for cs in nn[0]):
+            continue
+        f = fn_of(t) or {}
+        callee = f.get("resolved") or f.get("def")
+        if callee in trials or (ts.dispatcher is not None and callee == ts.dispatcher.id):
+            # the dispatcher's own calls are examined as inlined nodes; its trial calls are skipped above
+            continue
+        n += 1
+        direct = (f.get("trait") in ("std::io::Read", "std::io::BufRead") and f.get("name") not in ("by_ref", "take", "chain", "bytes", "consume")) or f.get("def") in ("std::io::copy", "std::io::read_to_string")
+        via = bool(f.get("local") and callee in lib.by_id and _pulls_bytes(lib, memo_, callee))
+        if direct or via:
+            bad.append((sup.site(nn), f.get("def")))
+    # ... nor does whoever calls the driver, on the way to that call
+    n_callers = 0
+    for cb in lib.bodies:
+        sites_ = [bb for bb, t in cb.calls() if ((fn_of(t) or {}).get("resolved") or (fn_of(t) or {}).get("def")) == det.id]
+        if not sites_ or cb.id in trials:
+            continue
+        n_callers += 1
+        csup = Super(lib, cb, depth=4)
+        dnodes = [((), bb) for bb in sites_]
+        for nn, bx, t in csup.calls():
+            if nn in dnodes or any(cs[2] in trials or cs[2] == det.id for cs in nn[0]):
+                continue
+            f = fn_of(t) or {}
+            callee = f.get("resolved") or f.get("def")
+            if callee == det.id or callee in trials:
+                continue
+            if not any(d in csup.reachable_from(nn) for d in dnodes):
+                continue
+            n += 1
+            direct = (f.get("trait") in ("std::io::Read", "std::io::BufRead") and f.get("name") not in ("by_ref", "take", "chain", "bytes", "consume")) or f.get("def") in ("std::io::copy", "std::io::read_to_string")
+            via = bool(f.get("local") and callee in lib.by_id and _pulls_bytes(lib, memo_, callee))
+            if direct or via:
+                bad.append((csup.site(nn), f.get("def")))
+    ctx.ob("driver-callers", n_callers >= 1, site(det), f"{n_callers} caller(s) of the detection driver examined up to the call")
+    for where_, d_ in bad[:3]:
+        ctx.ob(f"driver-reads:{d_}", False, where_, f"the detection driver pulls input bytes outside any trial (`{d_}`): look-ahead no longer starts with the first trial's own minimal read")
+    if not bad:
+        ctx.ob("driver-reads-nothing", True, site(det), f"{n} call(s) of the driver outside the trials, none can read from the source")
+    ctx.ob("driver-calls-seen", n >= 1, site(det), f"{n} non-trial call(s) examined in {det.name}")
+
+
 # --------------------------------------------------------------------------- C10
 
 
@@ -604,6 +678,34 @@ def r10_1(ctx):
     for a in ("json", "msgpack"):
         ok = ts.before(a, "yaml")
         ctx.ob(f"{a}-before-yaml", ok, where, f"{a} trial precedes the YAML trial (trial order: {ts.order})" if ok else (f"YAML is tried before {a}: xt's own {a} output would be claimed as YAML" if a == "json" else f"YAML is tried before {a}"))
+
+
+@rule("R10.5", 3, "the YAML chunker hands out a document only when libyaml has started the next one or ended the stream: on every other event it goes back to the parser (a first document is judged only after the parser got past its end)", ["C10", "C03"])
+def r10_5(ctx):
+    lib = ctx.lib
+    ch = common.chunker(ctx.facts)
+    sup = ch["sup"]
+    edges = common.chunker_event_edges(ctx.facts)
+    polls = [n for n, b_, t in sup.calls() if _is_parser_poll(lib, b_, t)]
+    ctx.need(polls, "parser poll not found in the chunker")
+    exits = set(sup.exits())
+    YIELDING = ("YAML_DOCUMENT_START_EVENT", "YAML_STREAM_END_EVENT")
+    n = 0
+    for ev, es in sorted(edges.items()):
+        if ev in YIELDING:
+            continue
+        bad = None
+        for sn, lab, dst in es:
+            n += 1
+            reach = sup.reachable_from(dst, removed_nodes=polls)
+            hit = [x for x in reach if x in exits]
+            if hit:
+                bad = (sn, hit[0])
+        ctx.ob(f"polls-again:{ev}", bad is None, sup.site(bad[0]) if bad else sup.site(es[0][0]),
+               "the parser is polled again before `next` can return" if bad is None else f"`next` can return on a {ev} without asking the parser for more: a document (or an error of the chunker's own) is produced before libyaml has seen the end of it")
+    for ev in YIELDING:
+        ctx.ob(f"arm:{ev}", ev in edges and any(lab != "otherwise" for _, lab, _ in edges[ev]), sup.site(edges[ev][0][0]) if ev in edges else site(ch["loop"]), "event has its own arm in the dispatch")
+    ctx.ob("content-event-edges", n >= 3, site(ch["loop"]), f"{n} edge(s) of non-yielding events examined")
 
 
 @rule("R10.4", 2, "the TOML trial's size cap applies to unbuffered reader input only: in-memory input of any size is parsed", ["C10"])
